@@ -4,7 +4,8 @@ Space (exhaustive, DESIGN 5 C17): a pool of 8 files written by rtflite itself (d
 3-page A4 table, landscape, with page header/footer (+ its own colours), with colour table, multi-section,
 1-figure, 2-figure.  All k-tuples with repetition, k <= 3 (quick: 584) / k <= 4 (thorough: 4680); plus [],
 every single input, and a missing file at every position (one and two missing) with the output path
-absent / pre-existing; a second pool of 6 document kinds (single table, paginated table, page_by table, multi-section,
+absent / pre-existing; the output path aliasing input i (every position, input listed twice, relative / './' /
+symlink spellings) against the assembly into a fresh path; a second pool of 6 document kinds (single table, paginated table, page_by table, multi-section,
 1 figure, 2 figures) x {no colour, text colour, background, border colour} in first and later positions (all ordered
 pairs, triples); rewrite histories inside one process (write X to path P, assemble, rewrite P with Y,
 assemble again, assemble [P]) for all ordered pairs of pool kinds x all positions of P in 1..3-tuples.
@@ -428,8 +429,101 @@ def history_shapes(full: bool):
     return out
 
 
+SPELLINGS = ("same", "relative", "dot", "symlink")
+
+
+def eval_alias(case: dict) -> dict:
+    """The output path is also one of the input paths (updating a master file in place).  Every distinct input name gets its own
+    private copy (a name listed twice is the same path twice); the output is input `alias`, spelled as the same string, as a
+    relative path, with a './' component, or as a symbolic link to it.
+    Oracle (metamorphic, the fresh-path behaviour itself is the business of the other layers): no exception; afterwards the output
+    path holds byte for byte what assembling the same, untouched inputs into a FRESH path gives; no input other than the output
+    path is modified."""
+    import rtflite as rtf
+
+    wd = workdir()
+    _COUNTER[0] += 1
+    cdir = os.path.join(wd, f"alias_{_COUNTER[0]}")
+    os.makedirs(cdir)
+    names = case["inputs"]
+    viol, cnt = [], {}
+    try:
+        paths, original = {}, {}
+        for nm in names:
+            if nm not in paths:
+                paths[nm] = os.path.join(cdir, f"in_{len(paths)}_{nm.replace(':', '-')}.rtf")
+                with open(paths[nm], "wb") as f:
+                    f.write(pool_file(nm)[1])
+                original[paths[nm]] = pool_file(nm)[1]
+        files = [paths[nm] for nm in names]
+        fresh = os.path.join(cdir, "fresh.rtf")
+        try:
+            rtf.assemble_rtf(input_files=list(files), output_file=fresh)
+            with open(fresh, "rb") as f:
+                want = f.read()
+        except Exception as e:
+            return {"viol": [{"klass": None, "sig": f"assemble-raised-{type(e).__name__}", "detail": f"inputs {names} into a fresh path: {type(e).__name__}: {e}"[:300]}],
+                    "nt": False}
+        for q, data in original.items():
+            with open(q, "rb") as f:
+                if f.read() != data:
+                    viol.append({"klass": None, "sig": "input-modified", "detail": f"inputs {names} into a fresh path: input {os.path.basename(q)} was modified"})
+        target = files[case["alias"]]
+        sp = case.get("spelling", "same")
+        if sp == "relative":
+            out = os.path.relpath(target)
+        elif sp == "dot":
+            out = os.path.join(os.path.dirname(target), ".", os.path.basename(target))
+        elif sp == "symlink":
+            out = os.path.join(cdir, "link_to_output.rtf")
+            os.symlink(target, out)
+        else:
+            out = target
+        where = (f"inputs {names}, output path = input {case['alias'] + 1} ({names[case['alias']]}"
+                 + (f", listed {names.count(names[case['alias']])}x" if names.count(names[case['alias']]) > 1 else "") + f"; spelling: {sp})")
+        try:
+            rtf.assemble_rtf(input_files=list(files), output_file=out)
+        except Exception as e:
+            viol.append({"klass": None, "sig": f"output-aliases-input-raised-{type(e).__name__}",
+                         "detail": f"{where}: {type(e).__name__}: {e}"[:300] + f"; afterwards the file holds {os.path.getsize(target)} bytes (was {len(original[target])})"})
+        else:
+            with open(target, "rb") as f:
+                got = f.read()
+            if got != want:
+                fd = next((i for i, (a, b) in enumerate(zip(got, want)) if a != b), min(len(got), len(want)))
+                viol.append({"klass": None, "sig": "output-aliases-input-result-differs",
+                             "detail": f"{where}: the file holds {len(got)} bytes afterwards, assembling the same inputs into a fresh path gives {len(want)} bytes; "
+                                       f"first difference at byte {fd}" + ("; the result is a prefix of the expected one" if want.startswith(got) else "")})
+        for q, data in original.items():
+            if q != target:
+                with open(q, "rb") as f:
+                    if f.read() != data:
+                        viol.append({"klass": None, "sig": "output-aliases-input-other-input-modified", "detail": f"{where}: input {os.path.basename(q)} was modified"})
+        cnt["alias"] = 1
+        cnt["alias-" + ("last" if case["alias"] == len(names) - 1 else "non-last") + "-input"] = 1
+        cnt["alias-spelling-" + sp] = 1
+        if names.count(names[case["alias"]]) > 1:
+            cnt["alias-input-listed-twice"] = 1
+        return {"viol": viol, "nt": True, "cnt": cnt}
+    finally:
+        shutil.rmtree(cdir, ignore_errors=True)
+
+
+def alias_cases(kmax: int, full: bool):
+    """output == input i for every position i of every k-tuple (k <= kmax) of the pool; other spellings of the same path
+    for k <= 2 (quick) / all (thorough)."""
+    for k in range(1, kmax + 1):
+        for t in itertools.product(POOL, repeat=k):
+            for i in range(k):
+                for sp in SPELLINGS if (full or k <= 2) else SPELLINGS[:1]:
+                    yield {"inputs": list(t), "alias": i, "spelling": sp}
+
+
 def eval_case(case: dict) -> dict:
     import rtflite as rtf
+
+    if "alias" in case:
+        return eval_alias(case)
 
     if "tuple" in case:
         return eval_history(case)
@@ -611,6 +705,9 @@ def plan(run):
                 f"{'all triples' if not quick else 'every file as the middle input of 4 triples'}"
                 + ("" if ENUMERATE_COLOURED_FIGURE_DOCUMENT_AS_LATER_INPUT else " EXCEPT tuples with a coloured figure-only document as a later input "
                    "(known defect, see ENUMERATE_COLOURED_FIGURE_DOCUMENT_AS_LATER_INPUT)") + "; "
+                "output path aliasing an input: every k-tuple of the 8-file pool (k <= 3) x every position i with output == input i (a name listed twice is the "
+                f"same path twice), spelled as the same string; as relative path / with './' / as symlink for {'k <= 2' if quick else 'all'} - result must equal the "
+                "assembly of the same inputs into a fresh path, other inputs untouched; "
                 "rewrite histories in ONE process: every ordered pair (X, Y) of distinct pool kinds (56) x every tuple shape of length 1..3 holding the "
                 f"rewritten path P at every position ({'all other inputs' if not quick else 'other inputs of one kind'}, incl. P listed twice; "
                 f"{len(history_shapes(not quick))} shapes): write X to P, assemble, rewrite P with Y, assemble the same tuple, assemble [P]. "
@@ -640,6 +737,9 @@ def plan(run):
         # every document kind without / with colours (text, background, border) in first and later positions
         mx = matrix_cases(not quick)
         run.layer("kind-x-colour", "mc.props.c17:eval_case", mx, chunk=12, total=len(mx))
+        # the output path is one of the input paths
+        al = list(alias_cases(3, not quick))
+        run.layer("output-aliases-input", "mc.props.c17:eval_case", al, chunk=25, total=len(al))
         # histories inside one process: same path, different content between two calls
         hist = [{"x": x, "y": y, "tuple": shp} for x, y in itertools.permutations(POOL, 2) for shp in history_shapes(not quick)]
         run.layer("rewrite-histories", "mc.props.c17:eval_case", hist, chunk=25, total=len(hist))
@@ -657,6 +757,7 @@ def plan(run):
                 run.harness_errors.append({"layer": "vacuity", "case": None, "error": f"matrix file {nm} never occurred as {pos} input"})
     for need in ("mixed-geometry", "later-input-with-colour-table", "later-input-with-page-header", "figure-input",
                  "same-input-twice-in-a-row", "missing-input", "empty-list", "single-input", "history-rewrite",
-                 "history-path-listed-twice", "history-rewritten-path-not-first"):
+                 "history-path-listed-twice", "history-rewritten-path-not-first", "alias-last-input", "alias-non-last-input",
+                 "alias-input-listed-twice", "alias-spelling-same", "alias-spelling-relative", "alias-spelling-dot", "alias-spelling-symlink"):
         if not run.cnt.get(need):
             run.harness_errors.append({"layer": "vacuity", "case": None, "error": f"counter {need} is zero"})
